@@ -1002,6 +1002,17 @@ class Frame:
                 raise Unsupported('binop ' + T.__name__)
             except Exception as ex:
                 raise PyExc(ex)
+        if T is ast.Add and issubclass(pytype_of(l), list) and issubclass(pytype_of(r), list) and not isinstance(l, SAny) and not isinstance(r, SAny):
+            from .models import slist_extend
+            if inplace:
+                if isinstance(l, SList):
+                    slist_extend(s.it, s, l, r)
+                else:
+                    if getattr(l, 'frozen', False):
+                        s.eng.event('arg_mutation', what='list +=')
+                    l.extend(s.iterate(r))
+                return l
+            return list(s.iterate(l)) + list(s.iterate(r))
         from .models import sym_binop
         return sym_binop(s.it, s, T, l, r)
 
